@@ -120,3 +120,33 @@ Definition lql_parse := lql_parse_v code_lowers_absolute.
 
 (* the instant a relative literal denotes at a given `now` (Unix nanoseconds) *)
 Definition rel_instant (now_ns : Z) (dur : Z) : Z := now_ns - dur.
+
+(* ---- named constants (parseConstantsDateTime): the instant at a given `now` (Unix nanoseconds, time.Local = UTC) ----
+   minute: now minus the seconds of the current minute (the nanoseconds stay: now.Add(-s * time.Second));
+   hour / day / week: the start of the current hour / day / week (Sunday 00:00), to the nanosecond. *)
+Definition const_instant (k : nat) (now_ns : Z) : Z :=
+  let s := now_ns / 1000000000 in
+  let ns := now_ns mod 1000000000 in
+  match k with
+  | 0%nat => now_ns - (s mod 60) * 1000000000
+  | 1%nat => now_ns - (s mod 3600) * 1000000000 - ns
+  | 2%nat => now_ns - (s mod 86400) * 1000000000 - ns
+  | _ => now_ns - (s mod 86400 + 86400 * weekday_of_days (s / 86400)) * 1000000000 - ns
+  end.
+(* the length of the period the constant names, in nanoseconds *)
+Definition const_period (k : nat) : Z :=
+  match k with
+  | 0%nat => 60000000000 | 1%nat => 3600000000000 | 2%nat => 86400000000000 | _ => 604800000000000
+  end.
+
+(* what can be said about the constant when the clock was somewhere in [lo, hi] (`minute` keeps the clock's nanoseconds) *)
+Definition const_lo (k : nat) (lo : Z) : Z :=
+  match k with
+  | 0%nat => (lo / 1000000000 - (lo / 1000000000) mod 60) * 1000000000
+  | _ => const_instant k lo
+  end.
+Definition const_hi (k : nat) (hi : Z) : Z :=
+  match k with
+  | 0%nat => (hi / 1000000000 - (hi / 1000000000) mod 60) * 1000000000 + 999999999
+  | _ => const_instant k hi
+  end.
